@@ -41,7 +41,8 @@ enum ClCfg {
 }
 const CLS: [ClCfg; 10] = [ClCfg::None, ClCfg::Five, ClCfg::Zero, ClCfg::OrigAndAdded, ClCfg::TwoDifferent, ClCfg::Negative, ClCfg::Alpha, ClCfg::Empty, ClCfg::NonUtf8, ClCfg::TooBig];
 
-const TES: [Option<&str>; 3] = [None, Some("chunked"), Some("Chunked")];
+/// "chunked+gzip" stands for two fields: `transfer-encoding: chunked` followed by `transfer-encoding: gzip`
+const TES: [Option<&str>; 4] = [None, Some("chunked"), Some("Chunked"), Some("chunked+gzip")];
 
 #[derive(Clone, Copy, Debug, PartialEq, Eq)]
 enum Verdict {
@@ -135,7 +136,11 @@ fn build(version: Version, method: &Method, host: HostCfg, cl: ClCfg, te: Option
         ClCfg::TooBig => b = b.header("content-length", "18446744073709551616"),
     }
     if let Some(v) = te {
-        b = b.header("transfer-encoding", v);
+        if v == "chunked+gzip" {
+            b = b.header("transfer-encoding", "chunked").header("transfer-encoding", "gzip");
+        } else {
+            b = b.header("transfer-encoding", v);
+        }
     }
     Built { req: b.body(()).unwrap(), added }
 }
@@ -298,7 +303,7 @@ fn exec_near_valid(t: &mut Tape, st: &mut Stats) -> Result<(), String> {
             0 => (ClCfg::None, None),
             1 => (ClCfg::Five, None),
             2 => (ClCfg::Zero, None),
-            _ => (ClCfg::None, TES[t.range(1, 2)]),
+            _ => (ClCfg::None, TES[t.range(1, 3)]),
         }
     } else {
         (ClCfg::None, None)
@@ -356,15 +361,79 @@ fn exec_near_valid(t: &mut Tape, st: &mut Stats) -> Result<(), String> {
     check(version, &method, host, cl, te, api, st)
 }
 
-const FLOW_BASES: [u64; 6] = [5, 9, 7, 10, 3, 2];
-const CALL_BASES: [u64; 6] = [5, 9, 4, 9, 3, 2];
+/// Stage 'redirected': a valid request that carried a body and framing, redirected by 301/302/303 (method becomes GET) or a
+/// body-less request redirected by 307/308: the request the followed flow makes is valid - its first write must succeed.
+fn exec_redirected(t: &mut Tape, st: &mut Stats) -> Result<(), String> {
+    use crate::drive::redirect::{exchange, Terminal};
+    use ureq_proto::client::flow::RedirectAuthHeaders;
+    let method = [Method::POST, Method::PUT, Method::PATCH, Method::GET, Method::DELETE, Method::OPTIONS][t.below(6)].clone();
+    let status = [301u16, 302, 303, 307, 308][t.below(5)];
+    let own_cl = t.below(2) == 1;
+    let host_orig = t.below(2) == 1;
+    let despite_first = t.below(2) == 1;
+    let policy = if t.below(2) == 0 { RedirectAuthHeaders::Never } else { RedirectAuthHeaders::SameHost };
+    st.evals(1);
+    let takes = needs_body(&method);
+    let body_first = takes || despite_first;
+    if own_cl && !body_first {
+        st.class("skipped_invalid");
+        return Ok(());
+    }
+    let what = format!("{} (own content-length {}, explicit host {}, despite {}) -> {} -> followed request", method, own_cl, host_orig, despite_first, status);
+    st.describe(|| json!({"stage": "redirected", "case": what}));
+    let mut b = Request::builder().method(method.clone()).uri("http://u.test/a/b?c=1").header("cookie", "k=v").header("authorization", "t");
+    if own_cl {
+        b = b.header("content-length", "4");
+    }
+    if host_orig {
+        b = b.header("host", "explicit.test");
+    }
+    let mut f = Flow::new(b.body(()).unwrap()).map_err(|e| format!("{}: Flow::new: {:?}", what, e))?;
+    if despite_first && !takes {
+        f.send_body_despite_method();
+    }
+    let head = format!("HTTP/1.1 {} R\r\nLocation: /moved\r\nContent-Length: 0\r\n\r\n", status);
+    let (_, _, term) = exchange(f, if own_cl { 4 } else { 3 }, head.as_bytes(), b"").map_err(|e| format!("{}: {}", what, e))?;
+    let mut red = match term {
+        Terminal::Redirect(r) => r,
+        Terminal::Cleanup(_) => return Err(format!("{}: no redirect state", what)),
+    };
+    let nf = match red.as_new_flow(policy).map_err(|e| format!("{}: as_new_flow: {:?}", what, e))? {
+        Some(nf) => nf,
+        None => {
+            st.class("redirect_not_followed");
+            return Ok(());
+        }
+    };
+    let m2 = nf.method().clone();
+    let mut sr = nf.proceed();
+    let mut big = [0u8; 1024];
+    match sr.write(&mut big) {
+        Err(e) => return Err(format!("{}: the followed {} request is valid (no body, inherited content-length suppressed) but was refused: {:?}", what, m2, e)),
+        Ok(n) => {
+            let h = parse_request_head(&big[..n]).map_err(|e| format!("{}: followed head invalid: {}", what, e))?;
+            if h.method != m2.as_str() || h.target != "/moved" {
+                return Err(format!("{}: followed head is {} {}", what, h.method, h.target));
+            }
+            if !sr.can_proceed() {
+                return Err(format!("{}: followed head complete but not ready", what));
+            }
+        }
+    }
+    st.class("redirected_accepted");
+    st.count_nontrivial(1);
+    Ok(())
+}
+
+const FLOW_BASES: [u64; 6] = [5, 9, 7, 10, 4, 2];
+const CALL_BASES: [u64; 6] = [5, 9, 4, 9, 4, 2];
 
 fn exec_flow(t: &mut Tape, st: &mut Stats) -> Result<(), String> {
     let version = VERSIONS[t.below(5)];
     let method = METHODS[t.below(9)].clone();
     let host = HOSTS[t.below(7)];
     let cl = CLS[t.below(10)];
-    let te = TES[t.below(3)];
+    let te = TES[t.below(4)];
     let despite = t.below(2) == 1;
     st.describe(|| json!({"api": "flow", "version": format!("{:?}", version), "method": method.as_str(), "host": format!("{:?}", host), "cl": format!("{:?}", cl), "te": te, "despite": despite}));
     check(version, &method, host, cl, te, ApiKind::Flow { despite }, st)
@@ -377,7 +446,7 @@ fn exec_call(t: &mut Tape, st: &mut Stats) -> Result<(), String> {
     let method = METHODS[t.below(9)].clone();
     let host = CALL_HOSTS[t.below(4)];
     let cl = CALL_CLS[t.below(9)];
-    let te = TES[t.below(3)];
+    let te = TES[t.below(4)];
     let api = if t.below(2) == 0 { ApiKind::CallWithoutBody } else { ApiKind::CallWithBody };
     st.describe(|| json!({"api": format!("{:?}", api), "version": format!("{:?}", version), "method": method.as_str(), "host": format!("{:?}", host), "cl": format!("{:?}", cl), "te": te}));
     check(version, &method, host, cl, te, api, st)
@@ -387,9 +456,10 @@ pub static DEF: PropDef = PropDef {
     id: "C17",
     rule: "exhaustive enumeration 'flow': versions {0.9, 1.0, 1.1, 2, 3} x 9 methods x Host in {none, original, added, original+added, two \
 original, two added, non-textual} x Content-Length in {none, 5, 0 (added), original+added, two different, -1, abc (added), empty, \
-non-UTF-8, > u64::MAX} x Transfer-Encoding in {none, chunked, Chunked} x send-body-despite-method {no, yes} = 18900 cells on \
-Flow; 'call': versions x methods x Host {none, one, two, non-textual} x Content-Length classes x TE x {without_body, with_body} = 9720 \
-cells. Oracle = validity table: reject iff version not 1.0/1.1, method undefined for the version, > 1 Host, > 1 Content-Length, \
+non-UTF-8, > u64::MAX} x Transfer-Encoding in {none, chunked, Chunked, two fields chunked + gzip} x send-body-despite-method {no, yes} = 25200 cells on \
+Flow; 'call': versions x methods x Host {none, one, two, non-textual} x Content-Length classes x TE x {without_body, with_body} = 12960 \
+cells; 'redirected': requests produced by following a redirect (the effective headers are the original ones minus the suppressed \
+names) must be accepted. Oracle = validity table: reject iff version not 1.0/1.1, method undefined for the version, > 1 Host, > 1 Content-Length, \
 non-numeric Content-Length, body (framing header / with-body constructor / body method on Flow) on a method that takes none \
 without despite, or body method without body. Rejected => every write (0-byte, 1-byte, ample, repeated) is Err, never ready, \
 advancing yields nothing; accepted => ample write emits a head that parses strictly with the right method/target/version and one \
@@ -404,6 +474,13 @@ and accepted cells with despite-method or both framing headers; distinct by enum
             tape: |_, idx| radix(idx, &FLOW_BASES),
             exhaustive: true,
             exec: None,
+        },
+        EnumDef {
+            name: "redirected",
+            count: |_t: Tier| 6 * 5 * 2 * 2 * 2 * 2,
+            tape: |_, idx| radix(idx, &[6, 5, 2, 2, 2, 2]),
+            exhaustive: true,
+            exec: Some(exec_redirected),
         },
         EnumDef {
             name: "call",
